@@ -206,6 +206,8 @@ class Driver(object):
         self.redeclare = None
         self.script = []
         self.did_nested = False
+        self.did_sorted = False
+        self.did_deep = False
         self.fresh_n = 0
 
     def family_ok(self, lrus):
@@ -340,6 +342,37 @@ class Driver(object):
                 self.script = [lambda we_: {"op": "AddPages", "ls": pg, "cr": False},
                                lambda we_: {"op": "CreateWe", "ps": [broad]},
                                lambda we_: {"op": "CreateWe", "ps": [bare] + tail}, move]
+        elif not self.did_deep and rng.random() < self.profile.get("deeppath", 0.0):
+            # a page hundreds of stems below its webentity's prefix (a calendar / "next" trap)
+            self.did_deep = True
+            h = u.host_prefix()
+            n = rng.choice([255, 256, 257, 300])
+            deep = h + rng.choice(u.paths[:2]) * n
+            self.script = [lambda we_: {"op": "AddPage", "l": deep, "cr": True},
+                           lambda we_: {"op": "AddPage", "l": deep[:len(deep) // 2 + (len(deep) // 2) % 4], "cr": False}]
+            self.script = self.script[:1]
+        elif not self.did_sorted and rng.random() < self.profile.get("sortedsiblings", 0.0):
+            # dozens of siblings inserted in ascending order (a degenerate sibling tree: a chain of right
+            # pointers, token paths of 30-50 moves), then paged through from beyond the 27th
+            from impl import stems_of
+            st = stems_of(u.host_prefix())
+            if len(st) >= 3 and st[0] in (b"s:http|", b"s:https|") and st[2][:2] == b"h:":
+                self.did_sorted = True
+                site = b"".join(st[:3])
+                kids = [site + b"p:u%02d|" % j for j in range(48)]
+                if rng.random() < 0.4:
+                    kids = kids[::-1]            # or descending: a chain of left pointers
+                k1 = rng.choice([27, 28, 30, 40])
+
+                def page(we_, site=site, k1=k1):
+                    own = [w for w, ps in we_.items() if any(site.startswith(p) for p in ps)]
+                    if not own:
+                        return None
+                    w = own[0]
+                    return {"op": self.profile.get("sortedop", "Paginate"), "id": w, "ps": list(we_[w]), "k": k1,
+                            "co": False, "int": True, "out": True, "token": None}
+                self.script = [lambda we_: {"op": "AddPages", "ls": kids[:32], "cr": True},
+                               lambda we_: {"op": "AddPages", "ls": kids[32:], "cr": False}, page]
         elif rng.random() < self.profile.get("freshsite", 0.05):
             from impl import stems_of
             st = stems_of(u.host_prefix())
